@@ -210,11 +210,16 @@ func (d *FetchDriver) snapshot() (q quiesce, ok bool) {
 			q.mainSem = true
 		case g.state == "chan send" && d.Progress != nil && hasFrame(g, "(*Fetcher).processQueue"):
 			q.progress++
-		case (strings.HasPrefix(g.state, "sync.RWMutex.") || g.state == "sync.Mutex.Lock") && d.Progress != nil && hasFrame(g, "(*Fetcher).processQueue"):
+		case (strings.HasPrefix(g.state, "sync.RWMutex.") || g.state == "sync.Mutex.Lock") && hasFrame(g, "(*Fetcher).processQueue"):
 			q.lockWait++
 		default:
 			ok = false
 		}
+	}
+	if q.lockWait > 0 && q.progress == 0 && !q.mainSem {
+		// nobody holds the fetcher's mutex in a parked state (a worker in the progress hand-over, the
+		// dispatcher waiting for a slot): whoever holds it is about to release it - not settled yet
+		ok = false
 	}
 	return q, ok
 }
